@@ -71,7 +71,12 @@ def strategy(tier):
         return {"mode": "defaults", "ctor": ctor, "before": draw(st.lists(val, max_size=4)), "steps": steps,
                 "protocol": draw(st.sampled_from((2, None, pickle.HIGHEST_PROTOCOL)))}
 
-    return st.one_of(*([cases()] * 7), default_cases())
+    @st.composite
+    def mixed(draw):
+        # (st.one_of would merge the repeated alternatives into one and give the defaults family half of the cases)
+        return draw(default_cases()) if draw(st.integers(0, 7)) == 0 else draw(cases())
+
+    return mixed()
 
 
 def default_table():
